@@ -1,7 +1,7 @@
 (** Correspondence cases of the `icagmp` scenario family (C37-C40): each constructor carries the inputs
     the implementation was run on and what it returned; [check] re-computes them with the models. *)
 From IBC Require Import Lib.Bytes Lib.BytesFacts Lib.Dec Lib.CorrLib Lib.Sha256
-  IcaGmp.Gmp IcaGmp.Bank IcaGmp.Callbacks IcaGmp.IcaHost.
+  IcaGmp.Gmp IcaGmp.Bank IcaGmp.Callbacks IcaGmp.IcaHost IcaGmp.IcaChan.
 Local Open Scope N_scope.
 
 Definition pairN_eqb (a b : N * N) : bool := (fst a =? fst b) && (snd a =? snd b).
@@ -55,7 +55,117 @@ Definition bN (a : bytes) (n : N) : bytes * N := (a, n).
 Definition bals_match (b : Bank) (obs : list (bytes * N)) : bool :=
   forallb (fun p => bal b (fst p) =? snd p) obs.
 
+(** ICA channel histories: controller and host operations interleaved; after every operation the
+    result class and the projected stores of both chains are compared *)
+Inductive ChanOp :=
+| OC (o : COp)
+| OH (o : HOp)
+| OCSend (signer owner conn : bytes) (tok : bool) (sent : option (bytes * N))
+| OCAckProbe (id : N) (cpv : VersionStr)
+| OHTryProbe (port conn cp : bytes) (cpv : VersionStr) (gen : bytes).
+
+Record Snap := mkSnap {
+  sn_cact : list ((bytes * bytes) * option N); sn_cacc : list ((bytes * bytes) * option bytes);
+  sn_cch : list (N * ChState); sn_cnext : N;
+  sn_hact : list ((bytes * bytes) * option N); sn_hacc : list ((bytes * bytes) * option bytes);
+  sn_hch : list (N * ChState); sn_hnext : N }.
+
+Definition keyed_ok {V} (eqb : V -> V -> bool) (m : list ((bytes * bytes) * V)) (obs : list ((bytes * bytes) * option V)) : bool :=
+  forallb (fun e => opt_eqb eqb (assoc2 m (fst (fst e)) (snd (fst e))) (snd e)) obs.
+
+Definition chans_ok (m : list (N * Chan)) (obs : list (N * ChState)) : bool :=
+  forallb (fun e => match chan_get m (fst e) with Some c => chstate_eqb (ch_state c) (snd e) | None => false end) obs.
+
+Definition snap_ok (c : Ctrl) (h : Host) (s : Snap) : bool :=
+  keyed_ok N.eqb (cs_active c) (sn_cact s) && keyed_ok bytes_eqb (cs_accounts c) (sn_cacc s) &&
+  chans_ok (cs_chans c) (sn_cch s) && (cs_next c =? sn_cnext s) &&
+  keyed_ok N.eqb (hs_active h) (sn_hact s) && keyed_ok bytes_eqb (hs_accounts h) (sn_hacc s) &&
+  chans_ok (hs_chans h) (sn_hch s) && (hs_next h =? sn_hnext s).
+
+Definition cb_res {T} (r : CbRes T) : Res := match r with CbOk _ => ROk | CbErr => RErr | CbPanic => RPanic end.
+
+Definition sent_eqb (a b : option (bytes * N)) : bool :=
+  opt_eqb (fun x y => bytes_eqb (fst x) (fst y) && (snd x =? snd y)) a b.
+
+Definition chan_step (c : Ctrl) (h : Host) (o : ChanOp) : Ctrl * Host * Res * bool :=
+  match o with
+  | OC co => let (c', r) := ctrl_step c co in (c', h, r, true)
+  | OH ho => let (h', r) := host_step h ho in (c, h', r, true)
+  | OCSend sg ow conn tok sent =>
+      let got := ctrl_send_tx c sg ow conn tok in
+      (c, h, match got with Some _ => ROk | None => RErr end, sent_eqb got sent)
+  | OCAckProbe id cpv =>
+      (c, h, match chan_get (cs_chans c) id with
+             | Some ch => cb_res (ctrl_on_ack c (ch_port ch) id cpv)
+             | None => RErr
+             end, true)
+  | OHTryProbe port conn cp cpv gen => (c, h, cb_res (host_on_try h port conn cp cpv gen), true)
+  end.
+
+Fixpoint chan_hist (c : Ctrl) (h : Host) (steps : list (ChanOp * Res * Snap)) : bool :=
+  match steps with
+  | [] => true
+  | (o, r, s) :: rest =>
+      match chan_step c h o with
+      | (c', h', r', extra) => res_eqb r' r && extra && snap_ok c' h' s && chan_hist c' h' rest
+      end
+  end.
+
+(* monomorphic helpers for the generated files *)
+Definition kN (a b : bytes) (v : option N) : (bytes * bytes) * option N := ((a, b), v).
+Definition kB (a b : bytes) (v : option bytes) : (bytes * bytes) * option bytes := ((a, b), v).
+Definition cS (id : N) (s : ChState) : N * ChState := (id, s).
+Definition stepT (o : ChanOp) (r : Res) (s : Snap) : ChanOp * Res * Snap := (o, r, s).
+
+(** GMP histories on a real chain: IBCModule.OnRecvPacket under channel-v2's cache rule and OnSendPacket *)
+Definition gsend (from to : bytes) (amt : N) : Bank -> MsgOutcome Bank :=
+  fun bk => match bank_send from to amt bk with Some b' => MOk b' | None => MErr end.
+Definition gfail : Bank -> MsgOutcome Bank := fun _ => MErr.
+Definition gmsg (url : bytes) (sg : option (list bytes)) (step : Bank -> MsgOutcome Bank) : Msg Bank := mkMsg url sg step.
+Definition grecv (sp dp v c : bytes) (d : option (bytes * bytes * N * N * N)) (ms : option (list (Msg Bank))) : RecvIn Bank :=
+  mkRecvIn sp dp v c d ms.
+Definition gdata (sender salt : bytes) (lr lp lm : N) : bytes * bytes * N * N * N := (sender, salt, lr, lp, lm).
+
+Inductive GmpOp :=
+| GRecv (i : RecvIn Bank) (t : Triple) (res : Res) (entry : option bytes) (bals : list (bytes * N))
+| GSend (i : SendIn) (ok : bool).
+
+Fixpoint gmp_hist (g : GState Bank) (ops : list GmpOp) : bool :=
+  match ops with
+  | [] => true
+  | GRecv i t res entry bals :: rest =>
+      let (g', r) := module_recv sha256 Bank (fun _ bk => bk) g i in
+      res_eqb r res && opt_eqb bytes_eqb (acc_get (g_accounts g') t) entry && bals_match (g_rest g') bals &&
+      gmp_hist g' rest
+  | GSend i ok :: rest => bool_eqb (module_send i) ok && gmp_hist g rest
+  end.
+
+(** callbacks middleware entry points of the callbacks simapp: observed (ok, inner gas limit, outer consumed
+    after, contract counter delta); a panic class otherwise *)
+Inductive MwObs :=
+| MRet (ok : bool) (delta : N)
+| MPanicObs (v : N).           (* 0 contract value, 1 retry, 2 outer out of gas, 3 outer overflow *)
+
+Definition mw_obs_eqb (a b : MwObs) : bool :=
+  match a, b with
+  | MRet x d, MRet y e => bool_eqb x y && (d =? e)
+  | MPanicObs x, MPanicObs y => x =? y
+  | _, _ => false
+  end.
+
+Definition obs_of_mw (r : MwRes N) : MwObs * N :=
+  match r with
+  | MwRet ok s o => (MRet ok s, m_consumed o)
+  | MwPanic v o => (MPanicObs (match v with PvContract => 0 | PvOutOfGasRetry => 1 | PvOuterGas OutOfGas => 2 | PvOuterGas GasOverflow => 3 end), m_consumed o)
+  end.
+
+Definition cb_propagates (t : CbType) : bool := match t with CbSend | CbRecv => true | _ => false end.
+
 Inductive Case :=
+| CbMw (t : CbType) (kind : N) (swallow : bool) (limit c0 maxg : N) (d : CbData) (used : N)
+       (obs : MwObs) (inner_limit : option N) (outer_after : N)
+| GmpHist (bank : Bank) (ops : list GmpOp)
+| IcaChanHist (c0 : Ctrl) (h0 : Host) (steps : list (ChanOp * Res * Snap))
 | IcaHostRecv (h : HS) (p : HostPacket Bank) (res : Res) (after : list (bytes * N))
 | GmpAddr (c s salt : bytes) (out : option bytes)
 | CbGas (f : GasField) (remaining maxg : N) (out : option (N * N))
@@ -64,6 +174,19 @@ Inductive Case :=
 
 Definition check (c : Case) : bool :=
   match c with
+  | CbMw t kind swallow limit c0 maxg d used obs inner outer_after =>
+      let outer := mkMeter limit c0 in
+      let (o, c') := obs_of_mw (after_app N maxg t outer 0 d (scripted kind swallow used) false (cb_propagates t)) in
+      mw_obs_eqb o obs && (c' =? outer_after) &&
+      match d, inner with
+      | CbWanted gf, Some l => match compute_limits gf (gas_remaining outer) maxg with
+                               | Some (e, _) => e =? l
+                               | None => false
+                               end
+      | _, _ => true
+      end
+  | GmpHist bank ops => gmp_hist (mkG [] bank) ops
+  | IcaChanHist c0 h0 steps => chan_hist c0 h0 steps
   | IcaHostRecv h p res after =>
       let (h', r) := host_recv Bank h p in res_eqb r res && bals_match (h_app h') after
   | GmpAddr c s salt out => opt_eqb bytes_eqb (build_address sha256 c s salt) out
